@@ -66,6 +66,12 @@ class FuncTranslator:
         self.counter = 0
         self.dropped = []       # statically discharged statements (recorded in the trusted base)
 
+    def aux_name(self, kind):
+        base = f"{self.fname}.loop_{kind}"
+        k = self.unit.aux_names.get(base, 0)
+        self.unit.aux_names[base] = k + 1
+        return base if k == 0 else f'{base}{k + 1}'
+
     def fresh(self, base='t'):
         self.counter += 1
         return f'{base}{self.counter}'
@@ -502,12 +508,13 @@ class FuncTranslator:
             env_b = dict(env)
             env_b[st_name] = V(st_name, INT)
             env_b[s.target.id] = V(s.target.id, INT)
-            saved = self.rtype
-            self.rtype = INT
-            body = self.block(s.body, env_b, lambda e2, i2: '  ' * i2 + f'.ok {e2[st_name].text}\n', ind + 2)
-            self.rtype = saved
             t = self.fresh('s')
-            out = (f'{pad}match Py.forLoop (fun ({st_name} : Int) ({s.target.id} : Int) =>\n{body}{pad}  ) {it.text} {env[st_name].text} with\n'
+            aux = self.aux_name('body')
+            body = self.block(s.body, {st_name: V(st_name, INT), s.target.id: V(s.target.id, INT)},
+                              lambda e2, i2: '  ' * i2 + f'.ok {e2[st_name].text}\n', 1)
+            self.unit.aux.append(f'/-- body of the `for {s.target.id} in {ast.unparse(s.iter)}` loop of `{self.fname}` (state: `{st_name}`) -/\n'
+                                 f'def {aux} ({st_name} : Int) ({s.target.id} : Int) : Except Py.Exc Int :=\n{body}')
+            out = (f'{pad}match Py.forLoop {aux} {it.text} {env[st_name].text} with\n'
                    f'{pad}| .error e => .error e\n{pad}| .ok {t} =>\n{pad}  let {st_name} : Int := {t}\n')
             env2 = dict(env)
             env2[st_name] = V(st_name, INT)
@@ -540,13 +547,16 @@ class FuncTranslator:
         self.rtype = None
         def fin(e2, i2):
             return '  ' * i2 + f'.ok ({e2[a].text}, {e2[b].text})\n'
-        body = self.block_simul(s.body, env_b, fin, ind + 3)
+        body = self.block_simul(s.body, {a: V(a, INT), b: V(b, INT)}, fin, 1)
         self.rtype = saved
         vtext = self.as_int(self.expr(ast.parse(variant, mode='eval').body, env, [])).text
         t = self.fresh('s')
-        out = (f'{pad}match Py.whileLoop (fun (s : Int × Int) => let {a} : Int := s.1; let {b} : Int := s.2; decide {paren(cond.text)})\n'
-               f'{pad}    (fun (s : Int × Int) =>\n{pad}      let {a} : Int := s.1\n{pad}      let {b} : Int := s.2\n{body}{pad}    )\n'
-               f'{pad}    (Int.toNat {paren(vtext)} + 1) ({env[a].text}, {env[b].text}) with\n'
+        auxc, auxb = self.aux_name('cond'), self.aux_name('body')
+        self.unit.aux.append(f'/-- condition of the `while {ast.unparse(s.test)}` loop of `{self.fname}` (state: `({a}, {b})`) -/\n'
+                             f'def {auxc} (s : Int × Int) : Bool :=\n  let {a} : Int := s.1\n  let {b} : Int := s.2\n  decide {paren(cond.text)}\n')
+        self.unit.aux.append(f'/-- body of the `while {ast.unparse(s.test)}` loop of `{self.fname}` -/\n'
+                             f'def {auxb} (s : Int × Int) : Except Py.Exc (Int × Int) :=\n  let {a} : Int := s.1\n  let {b} : Int := s.2\n{body}')
+        out = (f'{pad}match Py.whileLoop {auxc} {auxb} (Int.toNat {paren(vtext)} + 1) ({env[a].text}, {env[b].text}) with\n'
                f'{pad}| .error e => .error e\n{pad}| .ok {t} =>\n{pad}  let {a} : Int := {t}.1\n{pad}  let {b} : Int := {t}.2\n')
         env2 = dict(env)
         env2[a], env2[b] = V(a, INT), V(b, INT)
@@ -634,6 +644,8 @@ class Unit:
             self.mro[name] = chain
         self.functions = {}
         self.dropped = []
+        self.aux = []
+        self.aux_names = {}
 
     def add_function(self, name, lean_name):
         node = next(st for st in self.tree.body if isinstance(st, ast.FunctionDef) and st.name == name)
@@ -650,7 +662,9 @@ class Unit:
             sig += f' ({fi.vararg} : List Int)'
         body = ft.block(fi.node.body, env, lambda e, i: (_ for _ in ()).throw(Untranslatable('fall-through')), 1)
         self.dropped += [(name, d) for d in ft.dropped]
-        return f'/-- `{name}` (lib/intexpr.py:{fi.node.lineno}) -/\ndef {fi.lean_name} {sig} : Except Py.Exc Int :=\n{body}'
+        aux = '\n'.join(self.aux)
+        self.aux = []
+        return aux + ('\n' if aux else '') + f'/-- `{name}` (lib/intexpr.py:{fi.node.lineno}) -/\ndef {fi.lean_name} {sig} : Except Py.Exc Int :=\n{body}'
 
     # ------------------------------------------------------------------ classes
 
